@@ -128,6 +128,7 @@ func runC10(c *Ctx) {
 			c.Nontrivial(fmt.Sprintf("default-fetch|%v|%s", strict, storage))
 		}
 	}
+	c.Rep.Cases += c10URLStage(c)
 }
 
 func runC11(c *Ctx) {
